@@ -21,7 +21,7 @@ PROPS = {
     ),
     'C14': dict(verus=['u_small', 'u_hcr'], kani_quick=['b_enttab'], level='proof', technique='contract-based deductive verification (Verus) of the verbatim-extracted character-reference tokenizer (all functions of char_ref/mod.rs and its glue in the tokenizer) against a per-character transcription of the WHATWG character-reference states (longest match, attribute exception, numeric ranges and C1 table); the generated entity table is compared exhaustively with the WHATWG list'),
     'C15': dict(verus=['u_small', 'u_bq', 'u_xtok', 'u_xcr'], kani_thorough=['b_xtok'], level='proof', technique='contract-based deductive verification (Verus) of the verbatim-extracted XmlTokenizer input primitives and state machine against the normalised pending stream (stream-level contracts, fast-path loop invariant, call-site set preconditions) and of all 19 functions of the XML character-reference sub-tokenizer (suspension iff no input pending, conservation of spelling + pending input, CR flag off)'),
-    'C16': dict(verus=['u_qname', 'u_xns', 'u_xtb'], level='proof', technique='contract-based deductive verification (Verus) of the verbatim-extracted XML qualified-name splitter, duplicate-attribute test and namespace handling of the tree builder (declaration rules, innermost-first scope search, resolution of element and attribute names, what is pushed for descendants and what is dropped) against a scope-resolution specification written from Namespaces in XML'),
+    'C16': dict(verus=['u_qname', 'u_xns', 'u_xtb'], kani_quick=['b_xns'], level='proof', technique='contract-based deductive verification (Verus) of the verbatim-extracted XML qualified-name splitter, duplicate-attribute test and namespace handling of the tree builder (declaration rules, innermost-first scope search, resolution of element and attribute names, what is pushed for descendants and what is dropped) against a scope-resolution specification written from Namespaces in XML'),
     'C17': dict(verus=['u_xser'], kani_quick=['b_xrt'], level='proof', technique='contract-based deductive verification (Verus) of the verbatim-extracted XmlSerializer: output equals a spec escape function with proved reversibility/confinement lemmas; namespace-scope postconditions (every prefix of the element and its attributes bound by the declarations actually written; end_elem leaves enclosing scopes alone)'),
     'C19': dict(verus=['u_enc', 'u_meta'], kani_quick=['b_henc'], level='proof', technique='contract-based deductive verification (Verus) of the verbatim-extracted extract_a_character_encoding_from_a_meta_element against a transcription of the WHATWG algorithm; bounded sweep of the real tree builder for which elements raise an indicator'),
     'C18': dict(verus=['u_trace'], kani_quick=['b_trace'], level='proof', technique='contract-based deductive verification (Verus): trace_handles against a handle set generated from the struct definition'),
